@@ -1,4 +1,4 @@
-//@ kernel envs serves=C03
+//@ kernel envs serves=C03,C02
 //@ item src/subrule.rs impl SubRule members=match_before_env,match_after_env,match_contexts_and_exceptions,context_match
 //@ stub SubRule::context_match
 
